@@ -41,6 +41,7 @@ type apLog struct {
 	stall   bool
 	stalled chan struct{}
 	release chan struct{}
+	relOnce sync.Once
 }
 
 func (l *apLog) Encode(v any) error {
@@ -53,10 +54,11 @@ func (l *apLog) Encode(v any) error {
 		if l.stall {
 			l.mu.Unlock()
 			close(l.stalled)
-			select {
-			case <-l.release:
-			case <-time.After(5 * time.Second):
-			}
+			// a plain channel receive, not a select: the harness recognises "Read is parked" by the state `select` of
+			// Read's Go routine, and this write may be running on that very Go routine (a flush inside RemoteLogin)
+			t := time.AfterFunc(5*time.Second, l.doRelease)
+			<-l.release
+			t.Stop()
 			l.mu.Lock()
 		}
 		return errInjected
@@ -73,6 +75,8 @@ func (l *apLog) Encode(v any) error {
 	l.out = append(l.out, fmt.Sprintf("A:%s|%d|%s|%d|%s", hx(e.Metadata.AuditID), e.LoggedAt.Unix(), e.Outcome, nargs, hx(e.Subjects["loggedAs"])))
 	return nil
 }
+
+func (l *apLog) doRelease() { l.relOnce.Do(func() { close(l.release) }) }
 
 func (l *apLog) setCur(s string) {
 	l.mu.Lock()
@@ -193,7 +197,7 @@ func runAuditProc(failAt int, ops []string, after int, stall bool) string {
 			case <-time.After(300 * time.Millisecond):
 			}
 			time.Sleep(30 * time.Millisecond)
-			close(log.release)
+			log.doRelease()
 		}()
 	}
 	ap := auditd.Auditd{Audits: audits, Logins: logins, EventW: auditevent.NewAuditEventWriter(log), Health: health.NewHealth()}
